@@ -41,6 +41,7 @@ type ImplRun struct {
 	Mutated []string   `json:"mutated,omitempty"` // messages that changed after delivery
 	Aliased []string   `json:"aliased,omitempty"` // payload objects shared between in-process recipients
 	Leaked  string     `json:"leaked,omitempty"`
+	CloseLatencyMs int64 `json:"close_latency_ms,omitempty"`
 }
 
 type nonLocalPeer struct{ wamp.Peer }
@@ -272,7 +273,13 @@ func runInBubble(sc *Scenario, res *ImplRun) {
 		}
 	}
 	synctest.Wait()
+	// Close must not wait for anything a client chose (e.g. the timeout of a
+	// call whose caller has left): it takes no virtual time
+	before := time.Now()
 	rt.Close()
+	if d := time.Since(before); d > 0 {
+		res.CloseLatencyMs = d.Milliseconds() + 1
+	}
 	synctest.Wait()
 }
 
